@@ -2,7 +2,7 @@
 """Shared bounded-exhaustive input spaces for the parser sweeps (C01, C05, C06, C07, C19)."""
 from mc import words, contexts
 
-SIGMA_X = ['a', ' ', '{', '}', '[', ']', '*', '+', '(', ')', '<', '>', '^', '%', '\n']
+SIGMA_X = ['a', ' ', '{', '}', '[', ']', '*', '+', '(', ')', '<', '>', '^', '%', '\n', '{a}']
 
 
 def shards(spec):
@@ -60,6 +60,8 @@ def iter_shard(spec, shard):
         head = '\\' + x
         for w in words.iter_shard(SIGMA_X, spec['A'], sh):
             yield head + words.render(SIGMA_X, w), 'A'
+            # the same call as the last thing inside a group: an enclosing closing brace cuts the arguments short
+            yield '{' + head + words.render(SIGMA_X, w), 'A'
 
 
 def describe(spec):
@@ -71,7 +73,7 @@ def describe(spec):
         parts.append('all words of length <= %d over the 30 lexemes (default context)' % spec['L'])
     if spec.get('A') is not None:
         parts.append('for each of the %d macros of the custom all-argument-types context, the macro followed by '
-                     'all words of length <= %d over the 15 argument characters' % (len(contexts.CTXA_MACROS), spec['A']))
+                     'all words of length <= %d over the 15 argument characters and the lexeme {a}, at top level and after an opening brace' % (len(contexts.CTXA_MACROS), spec['A']))
     if spec.get('Z') is not None:
         parts.append('all words of length <= %d over 14 lexemes incl. unknown macro/environment names under the custom context '
                      'without unknown-macro fallback' % spec['Z'])
